@@ -417,6 +417,14 @@ impl Default for CtapOptions {
 #[derive(Copy, Clone, Debug, Eq, PartialEq, Serialize, Deserialize)]
 #[non_exhaustive]
 pub struct Certifications {
+    #[serde(rename = "FIDO")]
+    #[serde(skip_serializing_if = "Option::is_none")]
+    pub fido: Option<u8>,
+
+    #[serde(rename = "CC-EAL")]
+    #[serde(skip_serializing_if = "Option::is_none")]
+    pub cc_eal: Option<u8>,
+
     #[serde(rename = "FIPS-CMVP-2")]
     #[serde(skip_serializing_if = "Option::is_none")]
     pub fips_cmpv2: Option<u8>,
@@ -432,14 +440,6 @@ pub struct Certifications {
     #[serde(rename = "FIPS-CMVP-3-PHY")]
     #[serde(skip_serializing_if = "Option::is_none")]
     pub fips_cmpv3_phy: Option<u8>,
-
-    #[serde(rename = "CC-EAL")]
-    #[serde(skip_serializing_if = "Option::is_none")]
-    pub cc_eal: Option<u8>,
-
-    #[serde(rename = "FIDO")]
-    #[serde(skip_serializing_if = "Option::is_none")]
-    pub fido: Option<u8>,
 }
 
 #[cfg(test)]
